@@ -258,6 +258,20 @@ def check_config(ctx, pm, cfg, workdir, texts, counter):
         events = ctx.audit.end()
         sub = dict(case, accessor=acc, resolved_layout=layout)
         kinds = set(k for k, _t in here.values())
+        if outcome != "loaded":
+            # a failed access must keep failing the same way (nothing half-loaded may be cached)
+            try:
+                getattr(comp, acc)
+                second = "loaded"
+            except RuntimeError:
+                second = "RuntimeError"
+            except Exception as e2:
+                second = "other:%s" % type(e2).__name__
+            bad = second != outcome
+            ctx.monitor("failure-not-cached", fired=bad)
+            if bad:
+                ctx.violation("failure-not-cached", "an accessor whose file is missing or invalid fails on every access, not only on the first",
+                              sub, observed={"first": outcome, "second": second}, expected="the same outcome twice")
         if not here:
             ctx.count("missing-file")
             bad = outcome != "RuntimeError" or not names_location(str(exc), got_root, base, [])
